@@ -287,6 +287,28 @@ func c12Run(c *core.Ctx, i int) {
 		}
 		h.observe(names[r.Intn(len(names))])
 	}
+	// map literals made of literals only, evaluated several times (function called twice, loop body):
+	// every evaluation is a fresh map with fresh inner maps
+	if r.Intn(3) == 0 {
+		tMM := gen.MapOf(tMapN)
+		lit := gen.MapLit{T: tMM, Keys: []string{"pos", "size"}, Vals: []gen.Expr{gen.MapLit{T: tMapN, Keys: []string{"x", "y"}, Vals: []gen.Expr{nl(0), nl(0)}}, gen.MapLit{T: tMapN, Keys: []string{"w"}, Vals: []gen.Expr{nl(1)}}}}
+		pos := func(v string) gen.Expr { return gen.Dot{X: vr(v, tMM), Key: "pos", T: tMapN} }
+		h.stmts = append(h.stmts,
+			gen.FuncDef{Name: "mkconf", Ret: tMM, Body: []gen.Stmt{gen.Return{Val: lit}}},
+			gen.Decl{Name: "k1", T: tMM, Init: call("mkconf", tMM)},
+			gen.Assign{Target: gen.Dot{X: pos("k1"), Key: "x", T: tNum}, Val: nl(5)}, gen.Assign{Target: gen.Dot{X: pos("k1"), Key: "z", T: tNum}, Val: nl(6)},
+			gen.CallStmt{C: call("del", gen.TNone, pos("k1"), sl("y"))},
+			gen.Decl{Name: "k2", T: tMM, Init: call("mkconf", tMM)},
+			printCall(sl("fresh"), vr("k1", tMM), vr("k2", tMM), gen.Binary{Op: "==", L: vr("k1", tMM), R: vr("k2", tMM), T: tBool}, call("len", tNum, toAny(pos("k2"))), call("has", tBool, pos("k2"), sl("y"))),
+			gen.For{Var: "rnd", VarT: tNum, Args: []gen.Expr{nl(3)}, Body: []gen.Stmt{
+				gen.Decl{Name: "lm", T: tMM, Init: gen.MapLit{T: tMM, Keys: []string{"a", "b"}, Vals: []gen.Expr{gen.MapLit{T: tMapN, Keys: []string{"p"}, Vals: []gen.Expr{nl(1)}}, gen.MapLit{T: tMapN, Keys: []string{"q"}, Vals: []gen.Expr{nl(2)}}}}},
+				printCall(sl("loop-literal"), vr("lm", tMM)),
+				gen.Assign{Target: gen.Dot{X: gen.Dot{X: vr("lm", tMM), Key: "a", T: tMapN}, Key: "p", T: tNum}, Val: gen.Binary{Op: "+", L: vr("rnd", tNum), R: nl(10), T: tNum}},
+				gen.Assign{Target: gen.Dot{X: gen.Dot{X: vr("lm", tMM), Key: "b", T: tMapN}, Key: "r", T: tNum}, Val: vr("rnd", tNum)},
+				gen.CallStmt{C: call("del", gen.TNone, gen.Dot{X: vr("lm", tMM), Key: "b", T: tMapN}, sl("q"))},
+			}})
+		c.Cover("op", "constant-literal-evaluated-twice")
+	}
 	// deep equality
 	if r.Intn(3) == 0 {
 		tMM := gen.MapOf(tArrN)
